@@ -50,6 +50,7 @@ type scenario struct {
 	Shape  [][]int `json:"shape"`
 	ExecF  []int   `json:"exec_faults"`  // global ExecContext call numbers that fail (1-based)
 	WriteF []int   `json:"write_faults"` // global WriteRevision call numbers that fail
+	ReadF  []int   `json:"read_faults,omitempty"` // global ReadRevision call numbers (inside Execute) that fail
 	N      int     `json:"n"`            // ExecuteN argument
 	Edit   *edit   `json:"edit,omitempty"`
 	K      int     `json:"k"`       // C12: progress before the edit
@@ -123,6 +124,7 @@ type world struct {
 	texts    map[[2]int]string
 	nexec    int
 	nwrite   int
+	nread    int
 	drv      *fake.Driver
 	rrw      *fake.RRW
 }
@@ -197,6 +199,8 @@ func classify(err error, pan any) string {
 		return "write"
 	case errors.Is(err, migrate.ErrNoPendingFiles):
 		return "nopending"
+	case strings.Contains(err.Error(), "injected revision read failure"):
+		return "read"
 	}
 	return "other:" + err.Error()
 }
@@ -262,6 +266,14 @@ func newWorld(sc *scenario) *world {
 		emit(event{Ev: "write", C: sc.ID, F: f, Applied: r.Applied, Total: r.Total, Err: r.Error != "", Partial: w.decode(f, r.PartialHashes), Ok: err == nil})
 	}
 	w.rrw.ReadHook = func(v string) { emit(event{Ev: "read", C: sc.ID, F: fileOf(v)}) }
+	w.rrw.OnRead = func(v string) error {
+		w.nread++
+		if in(sc.ReadF, w.nread) {
+			emit(event{Ev: "readfail", C: sc.ID, F: fileOf(v)})
+			return errors.New("injected revision read failure")
+		}
+		return nil
+	}
 	return w
 }
 
@@ -273,6 +285,11 @@ func (w *world) faultsLeft() bool {
 	}
 	for _, x := range w.sc.WriteF {
 		if x > w.nwrite {
+			return true
+		}
+	}
+	for _, x := range w.sc.ReadF {
+		if x > w.nread {
 			return true
 		}
 	}
@@ -424,6 +441,17 @@ func main() {
 						}
 					}
 					playC09(sc, len(sub)+len(sh)+2)
+				}
+			}
+			// a third fault class: the ReadRevision call at the start of a file fails (at most one earlier statement failure,
+			// which leaves a partially applied file for the read to fail on)
+			for rd := 1; rd <= len(sh)+2; rd++ {
+				for ex := 0; ex <= total; ex++ {
+					sc := &scenario{Mode: "c09", Shape: sh, N: 0, ExecF: []int{}, WriteF: []int{}, ReadF: []int{rd}}
+					if ex > 0 {
+						sc.ExecF = []int{ex}
+					}
+					playC09(sc, len(sh)+4)
 				}
 			}
 		}
